@@ -147,10 +147,15 @@ GetCond(who, rules, n, ver, fault) ==
                  ELSE NoChange("getcond", who, n, Nil, ver, fault,
                                Reply("ok", sec[n].active, sec[n].vers[sec[n].active], Nil, Nil), <<e(TRUE)>>)
 
+\* An empty name is refused.  The pinned code refuses it before the permission check (nothing recorded); checking the
+\* permission first is just as good (C01: "refused, as access-denied whenever the request is otherwise well-formed"): then
+\* the call is recorded like any other, a caller without the grant is denied, one with it gets the validation error.
 Put(who, rules, n, v, fault) ==
   IF Cp(n) = <<>>
-  THEN /\ FaultPossible(fault) /\ UNCHANGED auditOK                   \* refused before the ACL: nothing logged
-       /\ NoChange("put", who, n, v, 0, fault, Plain("error"), <<>>)
+  THEN \/ /\ FaultPossible(fault) /\ UNCHANGED auditOK
+          /\ NoChange("put", who, n, v, 0, fault, Plain("error"), <<>>)
+       \/ LET Invalid(e) == NoChange("put", who, n, v, 0, fault, Plain("error"), <<e>>)
+          IN  Gate("put", "put", who, rules, n, v, 0, fault, Invalid)
   ELSE
   LET Body(e) ==
         IF Reserved(n) THEN NoChange("put", who, n, v, 0, fault, Plain("error"), <<e>>)
@@ -167,8 +172,10 @@ Put(who, rules, n, v, fault) ==
 
 Activate(who, rules, n, ver, fault) ==
   IF Cp(n) = <<>>
-  THEN /\ FaultPossible(fault) /\ UNCHANGED auditOK
-       /\ NoChange("activate", who, n, Nil, ver, fault, Plain("error"), <<>>)
+  THEN \/ /\ FaultPossible(fault) /\ UNCHANGED auditOK
+          /\ NoChange("activate", who, n, Nil, ver, fault, Plain("error"), <<>>)
+       \/ LET Invalid(e) == NoChange("activate", who, n, Nil, ver, fault, Plain("error"), <<e>>)
+          IN  Gate("activate", "activate", who, rules, n, Nil, ver, fault, Invalid)
   ELSE
   LET Body(e) ==
         IF Reserved(n) THEN NoChange("activate", who, n, Nil, ver, fault, Plain("error"), <<e>>)
